@@ -91,10 +91,12 @@ def gen_case(rng):
         dt = rng.choice(["float64", "float64", "float32"])
         if dt == "float32":
             xs = [x for x in xs if math.isnan(x) or math.isinf(x) or abs(x) < 3e38] or [0.0]
-        return {"kind": kind, "dtype": dt, "xs": [ftok(np.array([x], dtype=dt)[0]) for x in xs]}
+        return {"kind": kind, "dtype": dt, "xs": [ftok(np.array([x], dtype=dt)[0]) for x in xs],
+                "extra": rng.choice([0, 0, 0, 1, 3])}
     if kind == "int":
         xs = [rng.choice(INT_POOL) for _ in range(n)]
-        return {"kind": kind, "xs": [str(x) for x in xs], "dtype_hint": rng.randrange(4)}
+        # `extra`: the geometry has that many more vertices than the array has entries (the gap is padded with no-data)
+        return {"kind": kind, "xs": [str(x) for x in xs], "dtype_hint": rng.randrange(4), "extra": rng.choice([0, 0, 0, 1, 3])}
     if kind == "bool":
         xs = [rng.choice([0, 1, 0, 1, 1, 2, -1, "nan", "frac"]) for _ in range(n)]
         return {"kind": kind, "xs": [str(x) for x in xs]}
@@ -210,8 +212,9 @@ def run_case(ctx, case, path):
         return lines, checks, failures
     case["np_dtype"] = str(arr.dtype)
     ws = Workspace.create(path)
-    p = Points.create(ws, vertices=np.zeros((len(arr), 3)))
-    base = np.zeros(len(arr), dtype="float64" if kind == "float" else ("int32"))
+    extra = int(case.get("extra", 0)) if kind in ("float", "int") else 0
+    p = Points.create(ws, vertices=np.zeros((len(arr) + extra, 3)))
+    base = np.zeros(len(arr) + extra, dtype="float64" if kind == "float" else ("int32"))
     d = p.add_data({"d": {"values": base.astype(bool) if kind == "bool" else base, "type": typ}})
     uid = d.uid
     status = "ok"
@@ -225,6 +228,28 @@ def run_case(ctx, case, path):
     ws = Workspace(path)
     back = np.array(ws.get_entity(uid)[0].values)
     ws.close()
+    if extra and status == "ok":
+        # the entries beyond the array given are gaps: the format's no-data code in the file, NaN / the integer code when read
+        n0 = len(arr)
+        tail_live = None if live is None else live[n0:]
+        tail_raw, tail_back = (None if raw is None else raw[n0:]), back[n0:]
+        if kind == "float":
+            ok = (len(tail_back) == extra and all(math.isnan(float(x)) for x in tail_back)
+                  and tail_raw is not None and all(float(x) == 1.17549435e-38 for x in tail_raw)
+                  and tail_live is not None and all(math.isnan(float(x)) for x in tail_live))
+        else:
+            ok = (len(tail_back) == extra and all(int(x) == -2147483648 for x in tail_back)
+                  and tail_raw is not None and all(int(x) == -2147483648 for x in tail_raw)
+                  and tail_live is not None and all(int(x) == -2147483648 for x in tail_live))
+        if not ok:
+            failures.append((f"{kind} array of {n0} entries ({arr.dtype}) on {n0 + extra} vertices: the gap reads live {tail_live}, "
+                             f"stored {tail_raw}, re-read {tail_back} instead of the no-data code", "C08:gap-not-no-data:" + kind))
+        live = None if live is None else live[:n0]
+        raw = None if raw is None else raw[:n0]
+        back = back[:n0]
+    elif extra:
+        back = back[: len(arr)]
+        raw = None if raw is None else raw[: len(arr)]
     if kind == "float":
         lines.append({"m": "codec", "op": "float", "ndv": ftok(1.17549435e-38), "xs": [ftok(x) for x in arr.astype("float64")]})
         checks.append(("float", status, dt, [ftok(x) for x in raw], [ftok(x) for x in back]))
